@@ -40,6 +40,9 @@ func c19Ident(r *wk.Rand, used map[string]bool) string {
 		s := string(b)
 		if r.Chance(8) {
 			s = wk.Pick(r, []string{"Type", "Func", "Map", "string", "error", "int64", "ObjectMeta", "v1", "metav1", "any", "nil", "true"})
+		} else if r.Chance(6) {
+			// valid identifiers that do not start with an ASCII letter
+			s = wk.Pick(r, []string{"élan", "Überwachung", "имя", "名前", "ñandu", "çevre", "über9", "Ärger", "naïve", "Ωmega"})
 		}
 		if used[strings.ToLower(s)] {
 			continue
@@ -73,7 +76,14 @@ func c19Gen(r *wk.Rand) []c19Obj {
 		used := map[string]bool{}
 		for j := 0; j < np; j++ {
 			p := c19Prop{name: c19Ident(r, used)}
-			if j > 0 && r.Chance(12) {
+			if j > 0 && r.Chance(12) && objs[i].props[0].name[0] < 0x80 && func() bool {
+				for _, q := range objs[i].props {
+					if q.name[0] >= 0x80 {
+						return false
+					}
+				}
+				return true
+			}() {
 				// a property that differs from an earlier one only in the case of its first letter
 				prev := objs[i].props[r.Intn(len(objs[i].props))].name
 				alt := strings.ToUpper(prev[:1]) + prev[1:]
@@ -212,7 +222,7 @@ func c19GoType(p c19Prop) string {
 
 func runC19(c *wk.Ctx) {
 	c.Meta("rule", "generated schema YAML (0..6 objects x 0..6 properties, identifiers incl. Go keywords and mixed case, every type ID, refs to declared and undeclared objects) x {no ignore argument, ignore an existing object, ignore a non-existing name}; the generator binary built from the working tree is run 6 times per (input, argument form) in a private directory - runs 0/2/4 into an empty directory, runs 1/3/5 over an existing typedef_output.go that is longer than the new output (regenerating in place): exit status, stderr, output re-parsed with go/parser and compared as struct/field multisets with the expected mapping, and byte-compared across runs. non-trivial = at least 2 objects or an object with at least 2 properties (map iteration order can show); distinct by hash of (YAML, arguments)")
-	c.Meta("assumptions", []string{"names are ASCII letter followed by letters/digits (no underscores), no two names equal ignoring case; struct/field names are compared case-insensitively because title-casing is delegated to golang.org/x/text"})
+	c.Meta("assumptions", []string{"names are a letter (ASCII, or a non-ASCII letter such as é, Ü, и, 名) followed by letters/digits (no underscores), no two names equal ignoring case; struct/field names are compared case-insensitively because title-casing is delegated to golang.org/x/text"})
 	c.Floor("generator_runs", 200)
 	c.Floor("outputs_parsed", 20)
 	work := os.Getenv("VERIF_WORK")
@@ -232,6 +242,11 @@ func runC19(c *wk.Ctx) {
 	c.Cases(n, func(idx int64, r *wk.Rand) {
 		objs := c19Gen(r)
 		yamlText := c19YAML(r, objs)
+		// schema files without a single object, down to a file that holds no YAML document at all
+		if empties := []string{"", "   \n\n", "# nothing but a comment\n", "---\n", "steps: {}\n", "steps:\n", "steps:\n    create:\n        id: create\n        input:\n            objects:\n"}; idx < int64(len(empties)) {
+			objs, yamlText = nil, empties[idx]
+			c.Count("inputs_without_any_object")
+		}
 		dir := filepath.Join(work, fmt.Sprintf("c19-%d-%d", c.Shard, idx))
 		_ = os.MkdirAll(dir, 0o755)
 		defer os.RemoveAll(dir)
